@@ -130,10 +130,8 @@ pub fn fn_pow(a: &U256, e: &U256) -> U256 {
 }
 
 pub fn fn_inv(a: &U256) -> U256 {
-    let mont_a = fn_to_mont(a);
-    let mut r = fn_pow(&mont_a, &SM2_N_MINUS_TWO);
-    r = fn_from_mont(&r);
-    r
+    // fn_pow converts to and from Montgomery form itself
+    fn_pow(a, &SM2_N_MINUS_TWO)
 }
 
 #[cfg(test)]
